@@ -2,6 +2,7 @@ package drv
 
 import (
 	"bytes"
+	"encoding/json"
 	"fmt"
 	"io"
 	"net"
@@ -291,7 +292,7 @@ func relayFaults(a *Args) {
 					if c == pos {
 						wg.Add(1)
 						if kind == "shim-input" {
-							go shimInputVictims(e.proxyAddr(), &wg, n)
+							go shimInputVictims(res, e.proxyAddr(), &wg, n)
 						} else {
 							go run(relayPath(rng, n, []int{100, 5000})+"/v"+kind, true, 4*time.Second)
 						}
@@ -316,32 +317,78 @@ func relayFaults(a *Args) {
 	}
 }
 
-// shimInputVictims sends malformed calls to the websocket-shim endpoints through the proxy. Each
-// call is a client request of its own (token = request URI, made unique by a query string).
-func shimInputVictims(proxyAddr string, wg *sync.WaitGroup, n int) {
-	defer wg.Done()
-	bodies := []struct{ ep, body string }{
-		{"open", "::::not a url"}, {"data", "not json"}, {"data", `[{"id":"nope","msg":"x"}]`},
-		{"poll", `{"id":"zzz"}`}, {"close", `{"id":"zzz"}`}, {"data", `[{"id":"1","msg":{"a":1}}]`}, {"poll", `[1,2`},
+// MsgShapes are the JSON shapes a shim data call may carry as "msg": the shapes the shim accepts
+// (string, one-element array holding a base64 string) and every near miss of them.
+var MsgShapes = []struct {
+	Name, JSON string
+	Valid      bool
+}{
+	{"string", `"hello"`, true}, {"empty-string", `""`, true}, {"blob", `["aGVsbG8="]`, true}, {"blob-empty", `[""]`, true},
+	{"blob-bad-base64", `["!!!not base64!!!"]`, false}, {"empty-array", `[]`, false}, {"array-number", `[42]`, false},
+	{"array-null", `[null]`, false}, {"array-bool", `[true]`, false}, {"array-object", `[{}]`, false},
+	{"array-array", `[["aGk="]]`, false}, {"array-two", `["aGk=","aGk="]`, false}, {"number", `42`, false},
+	{"bool", `true`, false}, {"null", `null`, false}, {"object", `{"a":1}`, false}, {"missing", ``, false},
+}
+
+func shapedData(sid, shape string) string {
+	if shape == "" {
+		return fmt.Sprintf(`[{"id":%q}]`, sid)
 	}
-	for i, b := range bodies {
-		p := fmt.Sprintf("/shimx/%s?u=%d-%d", b.ep, n, i)
+	return fmt.Sprintf(`[{"id":%q,"msg":%s}]`, sid, shape)
+}
+
+// shimInputVictims sends malformed calls to the websocket-shim endpoints through the proxy: first
+// against sessions that do not exist, then - after opening a real session against the backend's
+// websocket endpoint - every message shape of MsgShapes on the live session. Each call is a
+// client request of its own (token = request URI, made unique by a query string).
+func shimInputVictims(res *hx.Result, proxyAddr string, wg *sync.WaitGroup, n int) {
+	defer wg.Done()
+	i := 0
+	post := func(ep, body string) (int, []byte) {
+		i++
+		p := fmt.Sprintf("/shimx/%s?u=%d-%d", ep, n, i)
 		hx.Emit("Fault", "r", p, "kind", "shim-input")
-		req, _ := http.NewRequest("POST", "http://"+proxyAddr+p, strings.NewReader(b.body))
+		req, _ := http.NewRequest("POST", "http://"+proxyAddr+p, strings.NewReader(body))
+		req.Header.Set("X-Websocket-Shim-Version", "1")
 		tr := &http.Transport{DisableKeepAlives: true}
 		cl := &http.Client{Transport: tr, Timeout: 10 * time.Second}
 		hx.Emit("ClientSend", "r", p)
 		resp, err := cl.Do(req)
 		if err != nil {
 			hx.Emit("ClientGaveUp", "r", p)
-			continue
+			return 0, nil
 		}
-		io.Copy(io.Discard, resp.Body)
+		b, _ := io.ReadAll(resp.Body)
 		resp.Body.Close()
 		kind := fmt.Sprintf("status%d", resp.StatusCode)
 		if resp.StatusCode == 502 {
 			kind = "502"
 		}
 		hx.Emit("ClientRecv", "r", p, "kind", kind, "tok", p)
+		return resp.StatusCode, b
 	}
+	for _, b := range []struct{ ep, body string }{
+		{"open", "::::not a url"}, {"data", "not json"}, {"data", `[{"id":"nope","msg":"x"}]`},
+		{"poll", `{"id":"zzz"}`}, {"close", `{"id":"zzz"}`}, {"data", `[{"id":"1","msg":{"a":1}}]`}, {"poll", `[1,2`},
+	} {
+		post(b.ep, b.body)
+	}
+	// a live session, then every message shape on it
+	st, body := post("open", "ws://"+proxyAddr+"/ws-echo")
+	var r struct {
+		ID string `json:"id"`
+	}
+	json.Unmarshal(body, &r)
+	hx.Emit("ShimSession", "status", st, "opened", st == 200 && r.ID != "")
+	if st != 200 || r.ID == "" {
+		res.Bad("shim-input: could not open a live shim session through the agent (status %d): the message shapes were not exercised", st)
+		return
+	}
+	for _, sh := range MsgShapes {
+		post("data", shapedData(r.ID, sh.JSON))
+	}
+	post("data", `[{"id":"`+r.ID+`","msg":"one"},{"id":"`+r.ID+`","msg":[]},{"id":"`+r.ID+`","msg":"two"}]`)
+	post("poll", fmt.Sprintf(`{"id":%q}`, r.ID))
+	post("close", fmt.Sprintf(`{"id":%q}`, r.ID))
+	post("close", fmt.Sprintf(`{"id":%q}`, r.ID))
 }
